@@ -87,6 +87,8 @@ func Leaves() []NC {
 		NC{"LiteralValue{dynamic}", func() schema.Constraint { return schema.LiteralValue{Value: cty.DynamicVal} }},
 		NC{"LiteralValue{\"a${1}b$c\"}", func() schema.Constraint { return schema.LiteralValue{Value: cty.StringVal("a${1}b$c")} }},
 		NC{"LiteralValue{\"line1\\nline2\"}", func() schema.Constraint { return schema.LiteralValue{Value: cty.StringVal("line1\nline2\n")} }},
+		NC{"LiteralValue{1e30}", func() schema.Constraint { return schema.LiteralValue{Value: cty.MustParseNumberVal("1e30")} }},
+		NC{"LiteralValue{-2.5}", func() schema.Constraint { return schema.LiteralValue{Value: cty.MustParseNumberVal("-2.5")} }},
 		NC{"LiteralValue{[]}", func() schema.Constraint { return schema.LiteralValue{Value: cty.ListValEmpty(cty.String)} }},
 		NC{"LiteralValue{{}}", func() schema.Constraint { return schema.LiteralValue{Value: cty.EmptyObjectVal} }},
 		NC{"LiteralValue{emptytuple}", func() schema.Constraint { return schema.LiteralValue{Value: cty.EmptyTupleVal} }},
